@@ -9,6 +9,8 @@ from excel2pycl.src.translators.abstract_translator import AbstractTranslator
 
 
 class LambdaTokenTranslator(AbstractTranslator):
+    _NUMBER = r'[+-]?([0-9]+)((\.)([0-9]+))?(e(-?[0-9]+))?'
+
     @staticmethod
     def _without_escapes(text: str) -> str:
         # a criterion without a live wildcard is compared as text: ~? ~* ~~ stand for the characters ? * ~
@@ -34,15 +36,20 @@ class LambdaTokenTranslator(AbstractTranslator):
 
             parsed_literal = re.findall(r'^(>=|<=|<>|>|<|=)(.*)$', literal_value, re.DOTALL) \
                 if isinstance(literal_value, str) else None
+            if not parsed_literal and isinstance(literal_value, str) and re.fullmatch(cls._NUMBER, literal_value):
+                # "3", "-3": a text that denotes a number selects the cells that hold this number (dateutil would read
+                # it as the third day of the current month)
+                parsed_literal = [('=', literal_value)]
             if parsed_literal:
                 # ">5", "<>apple", "=3", or a bare operator that is completed by & expression
                 operator, operand = parsed_literal[0]
                 condition_symbol = {'<>': '!=', '=': '=='}.get(operator, operator)
 
-                if re.fullmatch(r'([0-9]+)((\.)([0-9]+))?(e(-?[0-9]+))?', operand):
-                    # the number the text denotes, written as python writes it: ">007" is > 7 (007 is no python number)
+                if re.fullmatch(cls._NUMBER, operand):
+                    # the number the text denotes, written as python writes it: ">007" is > 7 (007 is no python number),
+                    # "<-5" is < -5 (taken as a text it would be read as a date and fail against every number)
                     number = float(operand)
-                    if operand.isdigit() and len(operand) <= 300:
+                    if operand.lstrip('+-').isdigit() and len(operand) <= 300:
                         number = int(operand)
                     # a number beyond the doubles (">1e999") is an infinity: repr() of it is a name, not a literal
                     condition_value = repr(number) if math.isfinite(number) else f'float({repr(str(number))})'
